@@ -494,6 +494,7 @@ type LoopSpec struct {
 	Asserts   []*Clause // proved at the end of the loop body (before the post statement), then assumed
 	Invs      []*Clause
 	Decreases *Clause
+	Unreachable bool // `loop N unreachable`: the loop head itself must be unreachable (dead branch)
 	AssumeTerm bool // decreases _
 }
 
@@ -755,6 +756,17 @@ func (cs *ContractSet) ReadFile(path, pkgName string, external bool) error {
 				}
 			case "loop":
 				f := strings.Fields(rest)
+				if len(f) == 2 && f[1] == "unreachable" {
+					n, err := strconv.Atoi(f[0])
+					if err != nil {
+						return fmt.Errorf("%s: loop ordinal: %v", l.pos, err)
+					}
+					if cur.Loops[n] == nil {
+						cur.Loops[n] = &LoopSpec{}
+					}
+					cur.Loops[n].Unreachable = true
+					continue
+				}
 				if len(f) < 3 {
 					return fmt.Errorf("%s: loop <n> invariant|decreases <expr>", l.pos)
 				}
